@@ -207,6 +207,56 @@ pub fn gen_structure(out: &mut Out, rng: &mut Rng, thorough: bool) {
     }
 }
 
+/// REAL builds in a forced, larger version (most blocks are padding) whose MESSAGE ends inside the first codeword of a later
+/// block and makes that codeword read like a pad codeword (236 or 17): the last three digits are found by trying all 1000
+/// through the crate's own encoder. A block that merely opens like padding must still get its own EC codewords.
+pub fn gen_padlike_builds(out: &mut Out, rng: &mut Rng, thorough: bool) {
+    let cells: &[(usize, usize)] = if thorough { &[(3, 3), (5, 3), (9, 3), (12, 2), (20, 3), (39, 2), (39, 3), (7, 2), (14, 3)] } else { &[(3, 3), (9, 3), (39, 2)] };
+    for &(v, e) in cells {
+        let ver = version_of(v);
+        let g = h::ecc_to_groups(ecl_of(e), ver);
+        let sizes: Vec<usize> = (0..g[0].0).map(|_| g[0].1).chain((0..g[1].0).map(|_| g[1].1)).collect();
+        let nb = sizes.len();
+        if nb < 3 {
+            continue;
+        }
+        let mut off = 0usize;
+        let mut emitted = 0;
+        for b in 0..nb / 2 + 1 {
+            if b >= 1 && emitted < (if thorough { 6 } else { 3 }) {
+                for md in 0..2usize {
+                    let cci = h::cci_bits(ver, mode_of(md));
+                    let bits = |len: usize| if md == 0 { 4 + cci + 10 * (len / 3) + [0usize, 4, 7][len % 3] } else { 4 + cci + 11 * (len / 2) + 6 * (len % 2) };
+                    // every length whose message ends inside codeword `off` (its last bits are then followed by zeros)
+                    let lens: Vec<usize> = (3..7090usize).filter(|&l| bits(l) > 8 * off && bits(l) < 8 * off + 8).collect();
+                    'lens: for len in lens {
+                        let mut d = crate::gen::content(rng, md, len);
+                        let alphabet: &[u8] = if md == 0 { b"0123456789" } else { b"0123456789ABCDEFGHIJKLMNOPQRSTUVWXYZ $%*+-./:" };
+                        let k = alphabet.len();
+                        for t in 0..k * k * k {
+                            d[len - 3] = alphabet[t / (k * k)];
+                            d[len - 2] = alphabet[(t / k) % k];
+                            d[len - 1] = alphabet[t % k];
+                            if md == 1 && t > 20000 {
+                                break;
+                            }
+                            let (_, data) = h::encode(&d, ecl_of(e), mode_of(md), ver);
+                            if data.get(off) == Some(&236) || data.get(off) == Some(&17) {
+                                let inp = d.clone();
+                                let forced_mode = if t % 2 == 0 { Some(md) } else { None };
+                                out.job(move || crate::gen::build_line(&inp, Opts { ecl: Some(e), mode: forced_mode, version: Some(v), mask: None }));
+                                emitted += 1;
+                                break 'lens;
+                            }
+                        }
+                    }
+                }
+            }
+            off += sizes[b];
+        }
+    }
+}
+
 pub fn gen_place(out: &mut Out, rng: &mut Rng, thorough: bool) {
     let versions: Vec<usize> = if thorough { (0..40).collect() } else { vec![0, 1, 5, 6, 13, 26, 39] };
     for v in versions {
